@@ -34,11 +34,13 @@ def rnd_user_param(rng, name, earlier_ints):
                                  (16, "IEEE754_1985"), (32, "IEEE754_1985"), (64, "IEEE754_1985")])
         return {"name": name, "type": {"name": name + "_T", "kind": "float",
                                        "enc": {"t": "num", "size": size, "kind": kind, "order": rng.choice(["msb", "lsb"]), "default": None, "context": None}}}, False
+    # enumerations and booleans are derived from the RAW value also when their encoding carries a calibrator
+    shift = ["poly", [[docs.fnum(1.0), 1], [docs.fnum(-1.0), 0]]]
     if r < 0.50:
         labels = [[["i", k], lbl] for k, lbl in ((0, "OFF"), (1, "ON"), (2, "IDLE"), (3, "ERR"))]
-        return {"name": name, "type": int_type(name, 2, tkind="enum", labels=labels)}, False
+        return {"name": name, "type": int_type(name, 2, tkind="enum", labels=labels, default=shift if rng.random() < 0.3 else None)}, False
     if r < 0.57:
-        return {"name": name, "type": int_type(name, rng.choice([1, 8]), tkind="bool")}, False
+        return {"name": name, "type": int_type(name, rng.choice([1, 8]), tkind="bool", default=shift if rng.random() < 0.4 else None)}, False
     if r < 0.70:   # calibrated integer
         cal = rng.choice([["poly", [[docs.fnum(0.5), 1], [docs.fnum(-1.0), 0]]], ["poly", [[docs.fnum(2), 2], [docs.fnum(0.25), 0]]],
                           ["spline", 1, True, [[docs.fnum(0.0), docs.fnum(0.0)], [docs.fnum(10.0), docs.fnum(5.0)], [docs.fnum(255.0), docs.fnum(100.0)]]],
@@ -51,7 +53,10 @@ def rnd_user_param(rng, name, earlier_ints):
             ctx = []
             for _c in range(rng.choice([1, 1, 2])):
                 ref = rng.choice(pool)
-                ctx.append({"criteria": [["cmp", {"ref": ref, "op": rng.choice(["==", ">=", "<", "!="]), "lit": str(rng.choice([0, 1, 2, 3])), "cal": False}]],
+                crit = [["cmp", {"ref": ref, "op": rng.choice(["==", ">=", "<", "!="]), "lit": str(rng.choice([0, 1, 2, 3])), "cal": False}]]
+                if rng.random() < 0.4:      # a comparison list: ALL of them must hold
+                    crit.append(["cmp", {"ref": rng.choice(pool), "op": rng.choice(["<", ">=", "!="]), "lit": str(rng.choice([1, 2, 3])), "cal": False}])
+                ctx.append({"criteria": crit,
                             "cal": rng.choice([["poly", [[docs.fnum(3.0), 1]]], ["poly", [[docs.fnum(0.5), 1], [docs.fnum(7.0), 0]]],
                                                ["spline", 0, False, [[docs.fnum(0.0), docs.fnum(-1.0)], [docs.fnum(64.0), docs.fnum(9.0)], [docs.fnum(255.0), docs.fnum(11.0)]]]])})
         return {"name": name, "type": int_type(name, 8, default=cal if rng.random() < 0.8 else None, context=ctx,
